@@ -91,8 +91,9 @@ func see(ctx context.Context, where, text string) {
 	}
 }
 
-// canon renders a result of the call: own tag -> "@" (foreign tags stay visible).
-func (rc *callRec) canon(s string) string { return strings.ReplaceAll(s, rc.tag, "@") }
+// canon renders a result of the call: own tag -> "<tSELF>" (same length as a tag: node
+// functions compute lengths; foreign tags stay visible).
+func (rc *callRec) canon(s string) string { return strings.ReplaceAll(s, rc.tag, selfTag) }
 
 func (rc *callRec) eventNames() []string {
 	rc.mu.Lock()
